@@ -1,5 +1,8 @@
-// Package vmmap stands in for golang.org/x/exp/mmap: Open is a scheduling
-// point (a read of the file's current content), the mapping itself is real.
+// Package vmmap stands in for golang.org/x/exp/mmap. The mapping itself is
+// real; Open, every read through the mapping and Close are scheduling points
+// on one object per mapped file (reads commute with each other, Close
+// conflicts with them), so that "unmapped while somebody still reads" is a
+// schedule the explorer can reach.
 package vmmap
 
 import (
@@ -8,11 +11,46 @@ import (
 	"github.com/klev-dev/klevdb/pkg/vshim/vsched"
 )
 
-type ReaderAt = mmap.ReaderAt
+type ReaderAt struct {
+	r    *mmap.ReaderAt
+	name string
+}
 
 func Open(filename string) (*ReaderAt, error) {
 	if vsched.Active {
 		vsched.Visible(vsched.KFS, vsched.Acc{Obj: vsched.Str("P:" + filename)})
 	}
-	return mmap.Open(filename)
+	r, err := mmap.Open(filename)
+	if err != nil {
+		return nil, err
+	}
+	return &ReaderAt{r: r, name: filename}, nil
+}
+
+func (r *ReaderAt) obj(w bool) vsched.Acc {
+	return vsched.Acc{Obj: vsched.Str("M:" + r.name), W: w}
+}
+
+func (r *ReaderAt) ReadAt(p []byte, off int64) (int, error) {
+	if vsched.Active {
+		vsched.Visible(vsched.KFS, r.obj(false))
+	}
+	return r.r.ReadAt(p, off)
+}
+
+func (r *ReaderAt) At(i int) byte {
+	if vsched.Active {
+		vsched.Visible(vsched.KFS, r.obj(false))
+	}
+	return r.r.At(i)
+}
+
+// Len does not touch the mapped memory.
+func (r *ReaderAt) Len() int { return r.r.Len() }
+
+func (r *ReaderAt) Close() error {
+	if vsched.Active {
+		vsched.Visible(vsched.KFS, r.obj(true))
+	}
+	return r.r.Close()
 }
